@@ -39,6 +39,7 @@ type concEv struct {
 	resp  int64
 	ver   int32 // write/delete: version assigned (0 = not accepted); read: version found
 	state string // "", "rej", "err"
+	errc  string // a failed get: "nofile" (the data file is gone), "decode" (what lies at the position is not a record), "other"
 }
 
 type concRun struct {
@@ -165,6 +166,16 @@ func (cr *concRun) doRead(hs *store.HStore, cl int, key string) {
 	switch {
 	case err != nil:
 		e.state = "err"
+		msg := err.Error()
+		switch {
+		case strings.Contains(msg, "no such file"):
+			e.errc = "nofile"
+		case strings.Contains(msg, "bad key size"), strings.Contains(msg, "bad value size"), strings.Contains(msg, "crc"),
+			strings.Contains(msg, "EOF"), strings.Contains(msg, "fail to read"):
+			e.errc = "decode"
+		default:
+			e.errc = "other"
+		}
 	case payload == nil:
 	default:
 		e.ver = payload.Ver
@@ -648,6 +659,9 @@ func concEmit(c *Ctx, cr *concRun) {
 		st := e.state
 		if st == "" {
 			st = "ok"
+		}
+		if e.errc != "" {
+			st += " errclass=" + e.errc
 		}
 		c.line("ev key=%s cl=%d op=%c val=%d inv=%d resp=%d ver=%d state=%s", hx([]byte(e.key)), e.cl, e.op, e.val, e.inv, e.resp, e.ver, st)
 		c.count("ev." + string(e.op))
